@@ -24,6 +24,7 @@ EXPLANATION = (
     "PAIR-4: an eigh eigenvector matrix that reaches a returned walker is column-reversed, flipped or "
     "tail-sliced first (descending occupation); used in ascending order the leading columns are the least "
     "occupied ones. "
+    ' ORTH-1: every orbital matrix get_init_walkers returns is orthonormal by construction (eigenvectors of a Hermitian matrix, the Q factor of a QR, a product of such); a sum / column-wise rescaling of orthonormal vectors with no QR after it is reported. '
 )
 NOT_DECIDED = (
     "orthonormality of Q, invariance of energy / force bias under QR, the overlap lower bound in the "
